@@ -107,6 +107,32 @@ static std::string run_hm(std::istringstream& is) {
 	return line.str();
 }
 
+// ---- pm: the real HashMultiMapIterator::pvMove against the generated one.  Script: a,k,v (Add)  v,k (RemoveValues: value-less key)
+// Output "<per-key value counts in key order> ||| <for every key j and value index vi: j:vi>j':vi' or j:vi>end>" where the right side
+// is what the REAL pvMove does to pvMakeIterator(key j, vi, move = false)
+static std::string run_pm(std::istringstream& is) {
+	typedef momo::HashMultiMap<int, int64_t> HM;
+	HM m; std::string tok;
+	while (is >> tok) {
+		std::vector<long long> a; { std::istringstream as(tok.substr(2)); std::string x; while (std::getline(as, x, ',')) a.push_back(std::stoll(x)); }
+		if (tok[0] == 'a') m.Add((int)a[0], (int64_t)a[1]);
+		else if (tok[0] == 'v') { auto kf = m.Find((int)a[0]); if (!!kf) m.RemoveValues(kf); }
+	}
+	std::vector<typename HM::KeyIterator> keys;
+	for (auto ki = m.GetKeyBounds().GetBegin(); !!ki; ++ki) keys.push_back(ki);
+	std::ostringstream T, R; T << "PM";
+	for (auto& ki : keys) T << " " << ki->GetCount();
+	for (size_t j = 0; j < keys.size(); ++j) for (size_t vi = 0; vi <= keys[j]->GetCount(); ++vi) {
+		auto it = m.pvMakeIterator(keys[j], vi, false);
+		it.pvMove();
+		R << " " << j << ":" << vi << ">";
+		if (it.GetValueIterator() == nullptr) { R << "end"; continue; }
+		size_t jj = 0; for (; jj < keys.size(); ++jj) if (&keys[jj]->key == &it.GetKeyIterator()->key) break;
+		R << jj << ":" << (it.GetValueIterator() - keys[jj]->GetBegin());
+	}
+	return T.str() + " |||" + R.str();
+}
+
 int main() {
 	std::string line;
 	while (std::getline(std::cin, line)) {
@@ -123,6 +149,7 @@ int main() {
 		else if (k == "hm") std::cout << run_hm<momo::HashMultiMap<int, int64_t>>(is) << "\n";
 		else if (k == "hx") std::cout << run_hm<momo::HashMultiMap<int, int64_t, momo::HashTraits<int>, momo::MemManagerDefault,
 			momo::HashMultiMapKeyValueTraits<int, int64_t, momo::MemManagerDefault>, HxSettings>>(is) << "\n";
+		else if (k == "pm") std::cout << run_pm(is) << "\n";
 		else if (k == "ab2") { size_t M; is >> M;
 			std::cout << (M == 1 ? run_ab2<1>(is) : M == 2 ? run_ab2<2>(is) : M == 7 ? run_ab2<7>(is) : M == 15 ? run_ab2<15>(is) : std::string("?M")) << "\n"; }
 		else std::cout << "?\n";
